@@ -131,6 +131,22 @@ def rule_allow_incomplete(facts):
         calls = [x for x in between if f.blocks[x].term.k == "call" and x != fin[0] and not f.blocks[x].cleanup and
                  "drop" not in (flow.callee(f.blocks[x].term) or "").lower()]
         r.ok("control-dependence", {"allow_incomplete = false": "process(Finish) then flush", "true": "flush only"})
+    # conversely: the final end-of-stream pass (the only place where the streaming API compares the produced length with the
+    # size in effect and the coder's final state) is skipped for no other reason than allow_incomplete
+    if len(proc) == 1:
+        from engine.flow import PosTerms
+        ptf = PosTerms(f)
+        term_at = lambda b_: ptf.at(b_.idx, None).of_operand(b_.term.discr)
+        extra = []
+        for (gb, t_, cond) in pat.branch_conditions(f, c, proc[0], term_at):
+            if t_[0] == "discr" or pat.has_field(t_, "allow_incomplete"):
+                continue        # Option / State discriminants and the option itself
+            extra.append(t_)
+        if extra:
+            r.bad("allow|check-extra-guard", "the final end-of-stream pass of finish also depends on %s: with that condition the size in effect "
+                  "and the coder's end state are never checked" % flow.show(extra[-1])[:70], pat.where(f, proc[0]))
+        else:
+            r.ok("control-dependence", {"final pass": "depends on allow_incomplete only"})
     # every Ok of the Data arm passes the flush
     data_arm = None
     for blk in f.blocks:
